@@ -354,6 +354,9 @@ func (s *Sim) clientMain(rs *rpcState, g int, ops []Op) {
 		s.clientOp(rs, g, st, op)
 	}
 	s.clientRecheck(rs, g)
+	if g == 0 && rs.outMD != nil {
+		s.instant(r.ID, 'c', g, "outmd-at-end", func(e *Event) { e.MD = mdCopy(rs.outMD) })
+	}
 	s.clientExit(rs)
 }
 
@@ -937,6 +940,19 @@ func (s *Sim) streamHandler(rs *rpcState, stream grpc.ServerStream) (err error) 
 			s.end(ev, nil)
 		case "mutate":
 			s.mutate(rs, 'h', 0, op.Ref)
+		case "hmutmd":
+			// the handler scribbles over the metadata object it was given
+			s.instant(r.ID, 'h', 0, "hmutmd", nil)
+			if md, ok := metadata.FromIncomingContext(ctx); ok {
+				for k, vs := range md {
+					for i := range vs {
+						vs[i] = "MUTATED-BY-HANDLER"
+					}
+					md[k] = append(vs, "HANDLER-EXTRA")
+				}
+				md["handler-added-later"] = []string{"x"}
+				s.probe("handler-md-mutated")
+			}
 		case "readmd":
 			s.instant(r.ID, 'h', 0, "readmd", func(e *Event) {
 				md, _ := metadata.FromIncomingContext(ctx)
@@ -1099,6 +1115,19 @@ func (s *Sim) unaryOp(rs *rpcState, ctx context.Context, op Op) {
 		s.end(ev, nil)
 	case "mutate":
 		s.mutate(rs, 'h', 0, op.Ref)
+	case "hmutmd":
+		// the handler scribbles over the metadata object it was given
+		s.instant(r.ID, 'h', 0, "hmutmd", nil)
+		if md, ok := metadata.FromIncomingContext(ctx); ok {
+			for k, vs := range md {
+				for i := range vs {
+					vs[i] = "MUTATED-BY-HANDLER"
+				}
+				md[k] = append(vs, "HANDLER-EXTRA")
+			}
+			md["handler-added-later"] = []string{"x"}
+			s.probe("handler-md-mutated")
+		}
 	case "readmd":
 		s.instant(r.ID, 'h', 0, "readmd", func(e *Event) {
 			md, _ := metadata.FromIncomingContext(ctx)
